@@ -21,23 +21,23 @@ import (
 const logPath = "github.com/go-spring/log"
 
 type Program struct {
-	fset         *token.FileSet
-	prog         *ssa.Program
-	pkgs         []*packages.Package
-	logPkg       *packages.Package
-	exprPkg      *packages.Package
-	logSSA       *ssa.Package
-	exprSSA      *ssa.Package
-	allTypesPkgs []*types.Package
-	spec         *SpecFile
-	ss           *Sorts
-	prelude      *Prelude
-	funcs        map[string]*ssa.Function // spec name -> function
-	repo         string
-	verifDir     string
-	closureNames map[*ssa.Function]string
-	variant      map[string]string // base contract name -> chosen alternative ("B")
-	foreignStores []string         // stores of this repository into package-level variables of other packages
+	fset          *token.FileSet
+	prog          *ssa.Program
+	pkgs          []*packages.Package
+	logPkg        *packages.Package
+	exprPkg       *packages.Package
+	logSSA        *ssa.Package
+	exprSSA       *ssa.Package
+	allTypesPkgs  []*types.Package
+	spec          *SpecFile
+	ss            *Sorts
+	prelude       *Prelude
+	funcs         map[string]*ssa.Function // spec name -> function
+	repo          string
+	verifDir      string
+	closureNames  map[*ssa.Function]string
+	variant       map[string]string // base contract name -> chosen alternative ("B")
+	foreignStores []string          // stores of this repository into package-level variables of other packages
 }
 
 // alternatives lists the functions that have an alternative contract name@B.
@@ -398,12 +398,12 @@ type preludeFile struct {
 
 type Prelude struct {
 	structDecls string
-	files map[string]*preludeFile
-	order []string
-	funs  map[string]funSig
-	sorts map[string]bool
-	sortFile map[string]string
-	used  map[*VC]map[string]bool
+	files       map[string]*preludeFile
+	order       []string
+	funs        map[string]funSig
+	sorts       map[string]bool
+	sortFile    map[string]string
+	used        map[*VC]map[string]bool
 }
 
 func (p *Prelude) use(vc *VC, fun string) {
